@@ -1,7 +1,8 @@
 (* C03 (conservation): transform_node keeps the elements of a node, in order. *)
 From Coq Require Import List Bool Arith Lia.
+From Coq Require NArith.
 Import ListNotations.
-Require Import Kinds PyStr Line Matcher Ast Builder BuilderSafe AstIds DenseDefs DenseFacts DenseStack OrdDefs OrdFacts ConserveDefs.
+Require Import Kinds PyStr Line Matcher Ast Builder BuilderSafe AstIds DenseDefs DenseFacts DenseStack OrdDefs OrdFacts ConserveDefs LocationFacts.
 
 (* the elements of a value / of the items of a node, in insertion order *)
 Fixpoint vsrc (v : value) : list elem :=
@@ -9,13 +10,13 @@ Fixpoint vsrc (v : value) : list elem :=
   | VTok _ => []
   | VNode n => nsrc n
   | VStep s => step_elems s
-  | VDocString _ => []
+  | VDocString d => text_elems (ds_content d)
   | VDataTable _ rows => row_elems rows
   | VBackground b => bg_elems b
   | VScenario s => sc_elems s
   | VExamples e => ex_elems e
   | VRows rs => row_elems rs
-  | VDesc _ => []
+  | VDesc s => text_elems s
   | VRule r => ru_elems r
   | VFeature f => f_elems f
   | VDocument d => doc_elems d
@@ -113,10 +114,64 @@ Qed.
 
 Notation cflat3 := (cflat ic3 cpat).
 Notation citem_ok3 := (citem_ok ic3 cpat).
-Notation cnrel3 := (cnrel ic3 cpat).
+Notation cnrel3 := (cnrel ic3 cpat cxr).
 
 Lemma citem_single n k v : Forall citem_ok3 (node_items n) -> get_single n k = Some v -> citem_ok3 (k, v).
 Proof. intros F H. rewrite Forall_forall in F. apply F. apply get_single_in. exact H. Qed.
+
+(* ---- free text: descriptions and doc-string contents ---- *)
+Lemma split_chr_app c a b : split_chr c (a ++ c :: b) = split_chr c a ++ split_chr c b.
+Proof.
+  induction a as [|x a IH]; cbn.
+  - rewrite BinNat.N.eqb_refl. reflexivity.
+  - destruct (BinNat.N.eqb x c); [now rewrite IH|]. rewrite IH. destruct (split_chr c a) as [|p ps] eqn:E; [|reflexivity].
+    exfalso. eapply split_chr_nonempty; eauto.
+Qed.
+Lemma split_join c ts : ts <> [] -> split_chr c (join [c] ts) = flat_map (split_chr c) ts.
+Proof.
+  induction ts as [|t r IH]; intros H; [congruence|]. destruct r as [|t2 r'].
+  - cbn. now rewrite app_nil_r.
+  - change (join [c] (t :: t2 :: r')) with (t ++ [c] ++ join [c] (t2 :: r')). cbn [app]. rewrite split_chr_app, IH by discriminate. reflexivity.
+Qed.
+Lemma text_elems_join ts : text_elems (join [LF] ts) = flat_map text_elems ts.
+Proof.
+  destruct ts as [|t r]; [reflexivity|]. unfold text_elems. rewrite split_join by discriminate.
+  generalize (t :: r). intros l. induction l as [|x l IH]; cbn [flat_map]; [reflexivity|].
+  rewrite filter_app, map_app, IH. reflexivity.
+Qed.
+Lemma blank_pieces c s : forallb is_space s = true -> forallb (fun p => forallb is_space p) (split_chr c s) = true.
+Proof.
+  induction s as [|x s IH]; cbn; [reflexivity|]. intros H. apply andb_prop in H as [Hx Hs]. specialize (IH Hs).
+  destruct (BinNat.N.eqb x c); cbn; [exact IH|]. destruct (split_chr c s) as [|p ps]; cbn in *; [now rewrite Hx|].
+  apply andb_prop in IH as [I1 I2]. now rewrite Hx, I1, I2.
+Qed.
+Lemma text_elems_blank s : forallb is_space s = true -> text_elems s = [].
+Proof.
+  intros H. unfold text_elems. pose proof (blank_pieces LF s H) as B. induction (split_chr LF s) as [|p ps IH]; [reflexivity|].
+  cbn in B. apply andb_prop in B as [B1 B2]. cbn. unfold nonblank at 1. rewrite B1. cbn. apply IH, B2.
+Qed.
+Lemma other_elems_blank t : blank_text t = true -> tok_elems KOther t = [].
+Proof. unfold blank_text, tok_elems. destruct (m_text t); [apply text_elems_blank | reflexivity]. Qed.
+Lemma drop_trailing_elems ts : flat_map (tok_elems KOther) (drop_trailing_blank ts) = flat_map (tok_elems KOther) ts.
+Proof.
+  induction ts as [|t r IH]; [reflexivity|]. cbn [drop_trailing_blank flat_map].
+  destruct (drop_trailing_blank r) as [|x r'] eqn:E.
+  - rewrite <- IH. cbn [flat_map]. rewrite app_nil_r. destruct (blank_text t) eqn:B; cbn [flat_map]; [now rewrite (other_elems_blank t B) | now rewrite app_nil_r].
+  - cbn [flat_map]. rewrite <- IH. reflexivity.
+Qed.
+Lemma texts_of_elems ts texts : texts_of ts = Some texts -> flat_map (tok_elems KOther) ts = flat_map text_elems texts.
+Proof.
+  revert texts. induction ts as [|t r IH]; intros texts H; cbn in H; [inversion H; reflexivity|].
+  destruct (m_text t) as [x|] eqn:T; [|discriminate]. destruct (texts_of r) as [l|]; [|discriminate]. inversion H; subst.
+  cbn [flat_map]. rewrite (IH l eq_refl). unfold tok_elems at 1. rewrite T. reflexivity.
+Qed.
+Lemma get_description_elems n desc : length (kfilter (KR RDescription) (node_items n)) <= 1 ->
+  get_description n = Some desc -> text_elems desc = grp3 (node_items n) (KR RDescription).
+Proof.
+  intros L. unfold get_description. destruct (get_single n (KR RDescription)) as [v|] eqn:G.
+  - rewrite (single_cgrp ic3 _ _ _ L G). destruct v; try discriminate. intros H. inversion H; subst. reflexivity.
+  - intros H. inversion H; subst. rewrite (none_cgrp ic3 _ _ G). reflexivity.
+Qed.
 
 (* the tags of a node that holds a Tags child *)
 Lemma get_tags_elems n i tags i1 : Forall citem_ok3 (node_items n) -> length (kfilter (KR RTags) (node_items n)) <= 1 ->
@@ -134,23 +189,36 @@ Qed.
 Definition keep_post (n : node) (r : tres value) : Prop :=
   match r with TOk v _ => vsrc v = iids3 (node_items n) | _ => True end.
 
-Ltac start_rule Hr N Sg F :=
+Ltac start_rule Hr N Sg F Xo :=
   lazymatch goal with
   | H : cnrel3 ?af ?n |- _ =>
-    destruct H as ((Rt & N & Sg & F) & _); rewrite Hr in *; unfold transform_node; rewrite Rt; unfold tbind, opt_crash; cbn [cpat cgroups] in N
+    destruct H as ((Rt & N & Sg & F & Xo) & _); rewrite Hr in *; unfold transform_node; rewrite Rt; unfold tbind, opt_crash; cbn [cpat cgroups] in N
   end.
 
 Lemma keep_rows af n c i : cnrel3 af n -> af_rule af = RDataTable \/ af_rule af = RExamplesTable -> keep_post n (transform_node n c i).
 Proof.
-  intros H [Hr|Hr]; start_rule Hr N Sg F; rewrite app_nil_r in N;
+  intros H [Hr|Hr]; start_rule Hr N Sg F Xo; rewrite app_nil_r in N;
     destruct (get_table_rows n i) as [rows i'|e i'|] eqn:G; cbn [keep_post]; auto.
   - destruct rows; cbn [keep_post]; auto. cbn [vsrc]. rewrite N. apply (get_table_rows_elems _ _ _ _ G).
   - cbn [vsrc]. rewrite N. apply (get_table_rows_elems _ _ _ _ G).
 Qed.
 
-Lemma keep_none af n c i : cnrel3 af n -> af_rule af = RDocString \/ af_rule af = RDescription -> keep_post n (transform_node n c i).
+Lemma keep_description af n c i : cnrel3 af n -> af_rule af = RDescription -> keep_post n (transform_node n c i).
 Proof.
-  intros H [Hr|Hr]; start_rule Hr N Sg F; peel; cbn [keep_post]; auto.
+  intros H Hr. start_rule Hr N Sg F Xo. rewrite app_nil_r in N.
+  destruct (get_tokens n KOther) as [lines|] eqn:G; cbn [keep_post]; auto.
+  destruct (texts_of (drop_trailing_blank lines)) as [texts|] eqn:T; cbn [keep_post]; auto.
+  cbn [vsrc]. rewrite N, (grp3_tok _ _ _ G), text_elems_join, <- (texts_of_elems _ _ T). apply drop_trailing_elems.
+Qed.
+
+Lemma keep_docstring af n c i : cnrel3 af n -> af_rule af = RDocString -> keep_post n (transform_node n c i).
+Proof.
+  intros H Hr. start_rule Hr N Sg F Xo. rewrite app_nil_r in N.
+  destruct (get_tokens n KDocStringSeparator) as [[|sep seps]|]; cbn [keep_post]; auto.
+  destruct (m_text sep); cbn [keep_post]; auto. destruct (m_keyword sep); cbn [keep_post]; auto.
+  destruct (get_tokens n KOther) as [lines|] eqn:G; cbn [keep_post]; auto.
+  destruct (texts_of lines) as [texts|] eqn:T; cbn [keep_post]; auto.
+  cbn [vsrc ds_content]. rewrite N, (grp3_tok _ _ _ G), text_elems_join, <- (texts_of_elems _ _ T). reflexivity.
 Qed.
 
 Lemma line_elem k t kw text : m_keyword t = Some kw -> m_text t = Some text ->
@@ -160,36 +228,44 @@ Proof. intros K T Hin. unfold tok_elems. rewrite K, T. cbn in Hin. repeat (destr
 
 Lemma keep_step af n c i : cnrel3 af n -> af_rule af = RStep -> keep_post n (transform_node n c i).
 Proof.
-  intros H Hr. start_rule Hr N Sg F. rewrite app_nil_r in N.
+  intros H Hr. start_rule Hr N Sg F Xo. rewrite app_nil_r in N.
   destruct (Sg (KT KStepLine) 0 false eq_refl) as [_ L0]. specialize (L0 eq_refl).
   destruct (Sg (KR RDataTable) 1 false eq_refl) as [_ L1]. specialize (L1 eq_refl).
+  destruct (Sg (KR RDocString) 2 false eq_refl) as [_ L2]. specialize (L2 eq_refl).
+  cbn [cxr] in Xo. inversion Xo as [|pr prs Xo1 _]; subst. cbn [fst snd] in Xo1.
   destruct (get_token n KStepLine) as [[sl|]|] eqn:Gl; cbn [keep_post]; auto.
   rewrite (grp3_token _ _ _ L0 Gl) in N.
   destruct (m_keyword sl) eqn:K; cbn [keep_post]; auto. destruct (m_ktype sl); cbn [keep_post]; auto. destruct (m_text sl) eqn:T; cbn [keep_post]; auto.
   rewrite (line_elem KStepLine sl _ _ K T) in N by (cbn; tauto).
   destruct (get_single n (KR RDataTable)) as [v|] eqn:Gd.
-  - rewrite (single_cgrp ic3 _ _ _ L1 Gd) in N. destruct v; cbn [keep_post]; auto; try (rewrite N; reflexivity).
+  - assert (Ed : grp3 (node_items n) (KR RDocString) = []).
+    { destruct Xo1 as [X|X]; [|unfold cgrp; now rewrite X]. exfalso.
+      unfold get_single, get_items in Gd. fold (kfilter (KR RDataTable) (node_items n)) in Gd. rewrite X in Gd. discriminate. }
+    rewrite (single_cgrp ic3 _ _ _ L1 Gd), Ed, app_nil_r in N. destruct v; cbn [keep_post]; auto; try (rewrite N; reflexivity).
   - rewrite (none_cgrp ic3 _ _ Gd) in N.
-    destruct (get_single n (KR RDocString)) as [v|]; [destruct v|]; cbn [keep_post]; auto; try (rewrite N; reflexivity).
+    destruct (get_single n (KR RDocString)) as [v|] eqn:Gs.
+    + rewrite (single_cgrp ic3 _ _ _ L2 Gs) in N. destruct v; cbn [keep_post]; auto; try (rewrite N; reflexivity).
+    + rewrite (none_cgrp ic3 _ _ Gs) in N. cbn [keep_post]. rewrite N. reflexivity.
 Qed.
 
 Lemma keep_background af n c i : cnrel3 af n -> af_rule af = RBackground -> keep_post n (transform_node n c i).
 Proof.
-  intros H Hr. start_rule Hr N Sg F. rewrite app_nil_r in N.
+  intros H Hr. start_rule Hr N Sg F Xo. rewrite app_nil_r in N.
   destruct (Sg (KT KBackgroundLine) 0 false eq_refl) as [_ L0]. specialize (L0 eq_refl).
+  destruct (Sg (KR RDescription) 1 false eq_refl) as [_ L1]. specialize (L1 eq_refl).
   destruct (get_token n KBackgroundLine) as [[bl|]|] eqn:Gl; cbn [keep_post]; auto.
   rewrite (grp3_token _ _ _ L0 Gl) in N.
   destruct (m_keyword bl) eqn:K; cbn [keep_post]; auto. destruct (m_text bl) eqn:T; cbn [keep_post]; auto.
   rewrite (line_elem KBackgroundLine bl _ _ K T) in N by (cbn; tauto).
-  destruct (get_description n); cbn [keep_post]; auto.
+  destruct (get_description n) as [desc|] eqn:Gd; cbn [keep_post]; auto.
   destruct (get_steps n) as [steps|] eqn:Gs; cbn [keep_post]; auto.
-  unfold get_steps in Gs. cbn [vsrc]. unfold bg_elems. cbn [bg_loc bg_keyword bg_name bg_steps].
-  rewrite (steps_of_elems _ _ Gs), N, grp3_rule. reflexivity.
+  unfold get_steps in Gs. cbn [vsrc]. unfold bg_elems. cbn [bg_loc bg_keyword bg_name bg_steps bg_desc].
+  rewrite (steps_of_elems _ _ Gs), (get_description_elems _ _ L1 Gd), N, !grp3_rule. reflexivity.
 Qed.
 
 Lemma keep_scenario af n c i : cnrel3 af n -> af_rule af = RScenarioDefinition -> keep_post n (transform_node n c i).
 Proof.
-  intros H Hr. start_rule Hr N Sg F. rewrite app_nil_r in N.
+  intros H Hr. start_rule Hr N Sg F Xo. rewrite app_nil_r in N.
   destruct (Sg (KR RTags) 0 false eq_refl) as [_ L0]. specialize (L0 eq_refl).
   destruct (Sg (KR RScenario) 1 false eq_refl) as [_ L1]. specialize (L1 eq_refl).
   destruct (get_tags n i) as [tags i1|e i1|] eqn:Gt; cbn [keep_post]; auto.
@@ -198,16 +274,16 @@ Proof.
   rewrite (single_cgrp ic3 _ _ _ L1 Gsn) in N. rewrite ic3_node in N.
   pose proof (citem_single n _ _ F Gsn) as IO. cbn in IO. destruct IO as (_ & [Fa Fs] & _).
   rewrite nsrc_items, Fa in N. cbn [cpat cgroups] in N. rewrite app_nil_r in N.
-  specialize (Fs (KT KScenarioLine) 0 eq_refl).
+  pose proof (Fs (KT KScenarioLine) 0 eq_refl) as Fs0. pose proof (Fs (KR RDescription) 1 eq_refl) as Fs1.
   destruct (get_token sn KScenarioLine) as [[sl|]|] eqn:Gl; cbn [keep_post]; auto.
-  rewrite (grp3_token _ _ _ Fs Gl) in N.
+  rewrite (grp3_token _ _ _ Fs0 Gl) in N.
   destruct (m_keyword sl) eqn:K; cbn [keep_post]; auto. destruct (m_text sl) eqn:T; cbn [keep_post]; auto.
   rewrite (line_elem KScenarioLine sl _ _ K T) in N by (cbn; tauto).
-  destruct (get_description sn); cbn [keep_post]; auto.
+  destruct (get_description sn) as [desc|] eqn:Gd; cbn [keep_post]; auto.
   destruct (get_steps sn) as [steps|] eqn:Gs; cbn [keep_post]; auto.
   destruct (examples_of (get_items sn (KR RExamplesDefinition))) as [exs|] eqn:Ge; cbn [keep_post]; auto.
-  unfold get_steps in Gs. cbn [vsrc]. unfold sc_elems. cbn [sc_steps sc_examples sc_tags sc_loc sc_keyword sc_name].
-  rewrite (steps_of_elems _ _ Gs), (examples_of_elems _ _ Ge), N, !grp3_rule. reflexivity.
+  unfold get_steps in Gs. cbn [vsrc]. unfold sc_elems. cbn [sc_steps sc_examples sc_tags sc_loc sc_keyword sc_name sc_desc].
+  rewrite (steps_of_elems _ _ Gs), (examples_of_elems _ _ Ge), (get_description_elems _ _ Fs1 Gd), N, !grp3_rule. reflexivity.
 Qed.
 
 Lemma rows_split_elems rs : match hd_error rs with Some r => row_elems [r] | None => [] end ++ row_elems (tl rs) = row_elems rs.
@@ -215,7 +291,7 @@ Proof. destruct rs; reflexivity. Qed.
 
 Lemma keep_examples af n c i : cnrel3 af n -> af_rule af = RExamplesDefinition -> keep_post n (transform_node n c i).
 Proof.
-  intros H Hr. start_rule Hr N Sg F. rewrite app_nil_r in N.
+  intros H Hr. start_rule Hr N Sg F Xo. rewrite app_nil_r in N.
   destruct (Sg (KR RTags) 0 false eq_refl) as [_ L0]. specialize (L0 eq_refl).
   destruct (Sg (KR RExamples) 1 false eq_refl) as [_ L1]. specialize (L1 eq_refl).
   destruct (get_tags n i) as [tags i1|e i1|] eqn:Gt; cbn [keep_post]; auto.
@@ -224,34 +300,37 @@ Proof.
   rewrite (single_cgrp ic3 _ _ _ L1 Gen) in N. rewrite ic3_node in N.
   pose proof (citem_single n _ _ F Gen) as IO. cbn in IO. destruct IO as (_ & [Fa Fs] & _).
   rewrite nsrc_items, Fa in N. cbn [cpat cgroups] in N. rewrite app_nil_r in N.
-  pose proof (Fs (KT KExamplesLine) 0 eq_refl) as Fs0. pose proof (Fs (KR RExamplesTable) 1 eq_refl) as Fs1.
+  pose proof (Fs (KT KExamplesLine) 0 eq_refl) as Fs0. pose proof (Fs (KR RDescription) 1 eq_refl) as Fs1. pose proof (Fs (KR RExamplesTable) 2 eq_refl) as Fs2.
   destruct (get_token en KExamplesLine) as [[el|]|] eqn:Gl; cbn [keep_post]; auto.
   rewrite (grp3_token _ _ _ Fs0 Gl) in N.
   destruct (m_keyword el) eqn:K; cbn [keep_post]; auto. destruct (m_text el) eqn:T; cbn [keep_post]; auto.
   rewrite (line_elem KExamplesLine el _ _ K T) in N by (cbn; tauto).
-  destruct (get_description en); cbn [keep_post]; auto.
+  destruct (get_description en) as [desc|] eqn:Gd; cbn [keep_post]; auto.
   assert (Fin : forall rs, grp3 (node_items en) (KR RExamplesTable) = row_elems rs ->
-    keep_post n (TOk (VExamples (mk_examples i1 tags (get_location el None) s s0 s1 (hd_error rs) (tl rs))) (S i1))).
-  { intros rs G. cbn [keep_post vsrc]. unfold ex_elems. cbn [ex_header ex_body ex_tags ex_loc ex_keyword ex_name].
-    rewrite rows_split_elems, N, G. reflexivity. }
+    keep_post n (TOk (VExamples (mk_examples i1 tags (get_location el None) s s0 desc (hd_error rs) (tl rs))) (S i1))).
+  { intros rs G. cbn [keep_post vsrc]. unfold ex_elems. cbn [ex_header ex_body ex_tags ex_loc ex_keyword ex_name ex_desc].
+    rewrite rows_split_elems, (get_description_elems _ _ Fs1 Gd), N, G. reflexivity. }
   destruct (get_single en (KR RExamplesTable)) as [v|] eqn:Gr; [destruct v|]; cbn [keep_post]; auto.
-  - apply Fin. apply (single_cgrp ic3 _ _ _ Fs1 Gr).
+  - apply Fin. apply (single_cgrp ic3 _ _ _ Fs2 Gr).
   - apply Fin. apply (none_cgrp ic3 _ _ Gr).
 Qed.
 
-(* the content of a header node: its tags, then its keyword line *)
-Lemma header_elems hn x k i tags i1 t kw text : cflat3 x hn -> Forall citem_ok3 (node_items hn) \/ True ->
-  cpat x = [(KR RTags, false); (KT k, false)] ->
+(* the content of a header node: its tags, its keyword line, its description *)
+Lemma header_elems hn x k i tags i1 t kw text desc : cflat3 x hn ->
+  cpat x = [(KR RTags, false); (KT k, false); (KR RDescription, false)] ->
   In k [KFeatureLine; KRuleLine] ->
   (forall m, In (KR RTags, VNode m) (node_items hn) -> cflat3 RTags m) ->
   get_tags hn i = TOk tags i1 -> get_token hn k = Some (Some t) -> m_keyword t = Some kw -> m_text t = Some text ->
-  nsrc hn = tag_elems tags ++ [ELine k (get_location t None) kw text].
+  get_description hn = Some desc ->
+  nsrc hn = tag_elems tags ++ ELine k (get_location t None) kw text :: text_elems desc.
 Proof.
-  intros [Fa Fs] _ Hp Hk Ft Gt Gl K T. rewrite nsrc_items, Fa, Hp. cbn [cgroups]. rewrite app_nil_r.
+  intros [Fa Fs] Hp Hk Ft Gt Gl K T Gd. rewrite nsrc_items, Fa, Hp. cbn [cgroups]. rewrite app_nil_r.
   assert (L0 : length (kfilter (KR RTags) (node_items hn)) <= 1) by (apply (Fs (KR RTags) 0); rewrite Hp; reflexivity).
   assert (L1 : length (kfilter (KT k) (node_items hn)) <= 1).
   { apply (Fs (KT k) 1). rewrite Hp. cbn. destruct Hk as [<-|[<-|[]]]; reflexivity. }
-  rewrite (grp3_token _ _ _ L1 Gl), (line_elem k t _ _ K T) by (cbn in *; tauto). f_equal.
+  assert (L2 : length (kfilter (KR RDescription) (node_items hn)) <= 1).
+  { apply (Fs (KR RDescription) 2). rewrite Hp. cbn. destruct Hk as [<-|[<-|[]]]; reflexivity. }
+  rewrite (grp3_token _ _ _ L1 Gl), (line_elem k t _ _ K T), <- (get_description_elems _ _ L2 Gd) by (cbn in *; tauto). f_equal.
   unfold get_tags in Gt. destruct (get_single hn (KR RTags)) as [v|] eqn:G.
   - rewrite (single_cgrp ic3 _ _ _ L0 G). destruct v; try discriminate.
     destruct (get_tokens n KTagLine) as [ts|] eqn:Gts; [|discriminate]. destruct (tags_of_tokens ts i) as [tg j] eqn:E. inversion Gt; subst.
@@ -274,7 +353,7 @@ Qed.
 
 Lemma keep_rule af n c i : cnrel3 af n -> af_rule af = RRule -> af_hdr af = true -> keep_post n (transform_node n c i).
 Proof.
-  intros H Hr Hd. pose proof H as (_ & _ & Hh). start_rule Hr N Sg F. rewrite app_nil_r in N.
+  intros H Hr Hd. pose proof H as (_ & _ & Hh). start_rule Hr N Sg F Xo. rewrite app_nil_r in N.
   destruct (Sg (KR RRuleHeader) 0 false eq_refl) as [_ L0]. specialize (L0 eq_refl).
   destruct (Sg (KR RBackground) 1 false eq_refl) as [_ L1]. specialize (L1 eq_refl).
   specialize (Hh Hd). cbn [hdr_of] in Hh. apply hdr_present in Hh.
@@ -284,22 +363,22 @@ Proof.
   cbn in IO. destruct IO as (_ & Fl & Nest & HL). cbn [hdr_line] in HL. destruct (has_line_token _ _ HL) as [rl Grl]. rewrite Grl. rewrite ic3_node in N.
   destruct (get_tags hn i) as [tags i1|e i1|] eqn:Gt; cbn [keep_post]; auto.
   destruct (m_keyword rl) eqn:K; cbn [keep_post]; auto. destruct (m_text rl) eqn:T; cbn [keep_post]; auto.
-  rewrite (header_elems hn RRuleHeader KRuleLine i tags i1 rl _ _ Fl (or_intror I) eq_refl (or_intror (or_introl eq_refl)) (Nest RTags) Gt Grl K T) in N.
   assert (Fin : forall bgc scs desc, flat_map rchild_elems bgc = grp3 (node_items n) (KR RBackground) ->
-             scenarios_of (get_items n (KR RScenarioDefinition)) = Some scs ->
+             scenarios_of (get_items n (KR RScenarioDefinition)) = Some scs -> get_description hn = Some desc ->
              keep_post n (TOk (VRule (mk_grule i1 tags (get_location rl None) s s0 desc (bgc ++ map RCScenario scs))) (S i1))).
-  { intros bgc scs desc Gb Gs. cbn [keep_post vsrc]. unfold ru_elems. cbn [ru_children ru_tags ru_loc ru_keyword ru_name].
+  { intros bgc scs desc Gb Gs Gd. cbn [keep_post vsrc]. unfold ru_elems. cbn [ru_children ru_tags ru_loc ru_keyword ru_name ru_desc].
+    rewrite (header_elems hn RRuleHeader KRuleLine i tags i1 rl _ _ desc Fl eq_refl (or_intror (or_introl eq_refl)) (Nest RTags) Gt Grl K T Gd) in N.
     rewrite flat_rchild_elems, Gb, (scenarios_of_elems _ _ Gs), N, !grp3_rule, <- !app_assoc. reflexivity. }
   destruct (get_single n (KR RBackground)) as [v|] eqn:Gb; [destruct v|]; cbn [keep_post]; auto;
     destruct (scenarios_of (get_items n (KR RScenarioDefinition))) as [scs|] eqn:Gs; cbn [keep_post]; auto;
-    destruct (get_description hn); cbn [keep_post]; auto; apply Fin; auto.
+    destruct (get_description hn) eqn:Gd; cbn [keep_post]; auto; apply Fin; auto.
   - cbn. rewrite app_nil_r. symmetry. apply (single_cgrp ic3 _ _ _ L1 Gb).
   - cbn. symmetry. apply (none_cgrp ic3 _ _ Gb).
 Qed.
 
 Lemma keep_feature af n c i : cnrel3 af n -> af_rule af = RFeature -> af_hdr af = true -> keep_post n (transform_node n c i).
 Proof.
-  intros H Hr Hd. pose proof H as (_ & _ & Hh). start_rule Hr N Sg F. rewrite app_nil_r in N.
+  intros H Hr Hd. pose proof H as (_ & _ & Hh). start_rule Hr N Sg F Xo. rewrite app_nil_r in N.
   destruct (Sg (KR RFeatureHeader) 0 false eq_refl) as [_ L0]. specialize (L0 eq_refl).
   destruct (Sg (KR RBackground) 1 false eq_refl) as [_ L1]. specialize (L1 eq_refl).
   specialize (Hh Hd). cbn [hdr_of] in Hh. apply hdr_present in Hh.
@@ -309,19 +388,19 @@ Proof.
   cbn in IO. destruct IO as (_ & Fl & Nest & HL). cbn [hdr_line] in HL. destruct (has_line_token _ _ HL) as [fl Gfl]. rewrite Gfl. rewrite ic3_node in N.
   destruct (get_tags hn i) as [tags i1|e i1|] eqn:Gt; cbn [keep_post]; auto.
   destruct (m_keyword fl) eqn:K; cbn [keep_post]; auto. destruct (m_text fl) eqn:T; cbn [keep_post]; auto.
-  rewrite (header_elems hn RFeatureHeader KFeatureLine i tags i1 fl _ _ Fl (or_intror I) eq_refl (or_introl eq_refl) (Nest RTags) Gt Gfl K T) in N.
   assert (Fin : forall bgc scs rls desc, flat_map fchild_elems bgc = grp3 (node_items n) (KR RBackground) ->
              scenarios_of (get_items n (KR RScenarioDefinition)) = Some scs ->
-             rules_of (get_items n (KR RRule)) = Some rls ->
+             rules_of (get_items n (KR RRule)) = Some rls -> get_description hn = Some desc ->
              keep_post n (TOk (VFeature (mk_feature tags (get_location fl None) (m_dialect fl) s s0 desc
                      (bgc ++ map FCScenario scs
                           ++ flat_map (fun r => match r with Some x => [FCRule x] | None => [] end) rls))) i1)).
-  { intros bgc scs rls desc Gb Gs Gr. cbn [keep_post vsrc]. unfold f_elems. cbn [f_children f_tags f_loc f_keyword f_name].
+  { intros bgc scs rls desc Gb Gs Gr Gd. cbn [keep_post vsrc]. unfold f_elems. cbn [f_children f_tags f_loc f_keyword f_name f_desc].
+    rewrite (header_elems hn RFeatureHeader KFeatureLine i tags i1 fl _ _ desc Fl eq_refl (or_introl eq_refl) (Nest RTags) Gt Gfl K T Gd) in N.
     rewrite flat_fchild_elems, Gb, (scenarios_of_elems _ _ Gs), (rules_of_elems _ _ Gr), N, !grp3_rule, <- !app_assoc. reflexivity. }
   destruct (get_single n (KR RBackground)) as [v|] eqn:Gb; [destruct v|]; cbn [keep_post]; auto;
     destruct (scenarios_of (get_items n (KR RScenarioDefinition))) as [scs|] eqn:Gs; cbn [keep_post]; auto;
     destruct (rules_of (get_items n (KR RRule))) as [rls|] eqn:Gr; cbn [keep_post]; auto;
-    destruct (get_description hn); cbn [keep_post]; auto;
+    destruct (get_description hn) eqn:Gd; cbn [keep_post]; auto;
     destruct (forallb _ rls); cbn [keep_post]; auto; apply Fin; auto.
   - cbn. rewrite app_nil_r. symmetry. apply (single_cgrp ic3 _ _ _ L1 Gb).
   - cbn. symmetry. apply (none_cgrp ic3 _ _ Gb).
@@ -329,7 +408,7 @@ Qed.
 
 Lemma keep_document af n c i : cnrel3 af n -> af_rule af = RGherkinDocument -> keep_post n (transform_node n c i).
 Proof.
-  intros H Hr. start_rule Hr N Sg F. rewrite app_nil_r in N.
+  intros H Hr. start_rule Hr N Sg F Xo. rewrite app_nil_r in N.
   destruct (Sg (KR RFeature) 0 false eq_refl) as [_ L1]. specialize (L1 eq_refl).
   destruct (get_single n (KR RFeature)) as [v|] eqn:Gf.
   - rewrite (single_cgrp ic3 _ _ _ L1 Gf) in N.
@@ -354,6 +433,6 @@ Proof.
   - eapply keep_rows; eauto.
   - eapply keep_step; eauto.
   - eapply keep_rows; eauto.
-  - eapply keep_none; eauto.
-  - eapply keep_none; eauto.
+  - eapply keep_docstring; eauto.
+  - eapply keep_description; eauto.
 Qed.
